@@ -42,13 +42,11 @@ if os.path.exists(rp):
         if len(parts) >= 3:
             lines.append('| %s | %s %s |' % (parts[0], parts[2], parts[3] if len(parts) > 3 else ''))
 lines.append('')
-lines.append('Two of them first produced exit 2 and led to machinery fixes: a discretisation rewritten with '
-             '`np.bincount` (a numpy C routine on object arrays: a `bincount` facade was added, and engine '
-             'limitations of this kind now put the unit in DEGRADED mode - accepted on its passing concrete '
-             'oracle runs, printed as `DEGRADED:` - instead of failing the check), and a harmless '
-             're-association in the error-rate formulas that left one cubic z3 query undecided (the PER claims now '
-             'fall back to a composition of the proved identity, the BER fact and a lemma on fresh variables).  '
-             'A correct variant of seeded change C01-B (cache invalidated) also passes.\n')
+lines.append('Several of them first produced exit 2 (never a VIOLATION) and led to the machinery '
+             'fixes listed in 9.5: `np.bincount`, an undecided cubic query, `int(-(-n // K))`, assignment '
+             'to `.real` of an array, `x.real**2 + x.imag**2` on symbolic arrays, `np.fmax.reduce(..., '
+             'initial=0)`, `divmod` on a symbolic integer, a module-level JSON encoder instance.  A '
+             'correct variant of seeded change C01-B (cache invalidated) also passes.\n')
 block = '\n'.join(lines)
 dp = os.path.join(V, 'DESIGN.md')
 s = open(dp).read()
